@@ -7,7 +7,7 @@
 From Coq Require Import QArith List Bool.
 From SF Require Import Base.GeomAST Base.QKernel Base.Planar Model.Relate Model.Intersects
   Proofs.Planar_slab_base Proofs.RelateMatch_proofs Proofs.Relate_slab_proofs
-  Proofs.Intersects_areal Proofs.Intersects_polypoly.
+  Proofs.Intersects_proofs Proofs.Intersects_areal Proofs.Intersects_polypoly.
 Import ListNotations.
 
 Lemma rings_closed_of_bool (g : geom) : Intersects.rings_closed g = true -> Planar_slab_base.rings_closed g.
@@ -49,3 +49,11 @@ Qed.
 Lemma disjoint_is_not_intersects_exec (a b : geom) : operand_okb a = true -> operand_okb b = true ->
   go_disjoint (enc_matrix (relate a b)) = RM (negb (intersects a b)).
 Proof. intros Ha Hb. apply disjoint_is_not_intersects_lemma; apply operand_okb_sound; assumption. Qed.
+
+(* Disjoint is symmetric, through the symmetry of the Intersects algorithm (no transposition argument needed) *)
+Lemma disjoint_sym_via_intersects (a b : geom) : operand_ok a -> operand_ok b ->
+  go_disjoint (enc_matrix (relate a b)) = go_disjoint (enc_matrix (relate b a)).
+Proof.
+  intros Ha Hb. rewrite (disjoint_is_not_intersects_lemma a b Ha Hb), (disjoint_is_not_intersects_lemma b a Hb Ha).
+  rewrite (Intersects_proofs.intersects_sym a b). reflexivity.
+Qed.
